@@ -276,6 +276,21 @@ func createImageFunctions() { //nolint:funlen // this is a group of related func
 	createVectorImageFunctions(cdata)
 }
 
+// checkCoords rejects path coordinates the rasterizer can't handle (NaN, infinities, absurdly far away points
+// made it divide by zero).
+func checkCoords(args []object.Object) *object.Error {
+	for _, a := range args {
+		f, ok := a.(object.Float)
+		if !ok {
+			continue
+		}
+		if math.IsNaN(f.Value) || math.Abs(f.Value) > 1e6 {
+			return object.Errorfp("invalid coordinate %s", f.Inspect())
+		}
+	}
+	return nil
+}
+
 func createVectorImageFunctions(cdata ImageMap) { //nolint:funlen // this is a group of related functions.
 	imgFn := object.Extension{
 		Name:       "image.move_to",
@@ -289,6 +304,9 @@ func createVectorImageFunctions(cdata ImageMap) { //nolint:funlen // this is a g
 			img, ok := images[args[0]]
 			if !ok {
 				return object.Errorf("image %q not found", args[0].(object.String).Value)
+			}
+			if oerr := checkCoords(args[1:]); oerr != nil {
+				return *oerr
 			}
 			x := int(args[1].(object.Float).Value)
 			y := int(args[2].(object.Float).Value)
@@ -304,6 +322,9 @@ func createVectorImageFunctions(cdata ImageMap) { //nolint:funlen // this is a g
 		img, ok := images[args[0]]
 		if !ok {
 			return object.Errorf("image %q not found", args[0].(object.String).Value)
+		}
+		if oerr := checkCoords(args[1:]); oerr != nil {
+			return *oerr
 		}
 		x := int(args[1].(object.Float).Value)
 		y := int(args[2].(object.Float).Value)
@@ -393,6 +414,9 @@ func createVectorImageFunctions(cdata ImageMap) { //nolint:funlen // this is a g
 		if !ok {
 			return object.Errorf("image %q not found", args[0].(object.String).Value)
 		}
+		if oerr := checkCoords(args[1:]); oerr != nil {
+			return *oerr
+		}
 		x1 := int(args[1].(object.Float).Value)
 		y1 := int(args[2].(object.Float).Value)
 		x2 := int(args[3].(object.Float).Value)
@@ -413,6 +437,9 @@ func createVectorImageFunctions(cdata ImageMap) { //nolint:funlen // this is a g
 		img, ok := images[args[0]]
 		if !ok {
 			return object.Errorf("image %q not found", args[0].(object.String).Value)
+		}
+		if oerr := checkCoords(args[1:]); oerr != nil {
+			return *oerr
 		}
 		x1 := int(args[1].(object.Float).Value)
 		y1 := int(args[2].(object.Float).Value)
